@@ -103,9 +103,18 @@ func checkC09(c *fw.Ctx) {
 		checkUpdate(c, up)
 	}
 	// who writes the context at all: update / newAllowerContext / composite construction only
+	// update() may delegate to unexported helpers of its own; they are writers by the same right
+	writers := map[*ssa.Function]bool{}
+	if up := c.P.Func("(*allowerContext).update"); up != nil {
+		for _, f := range fw.RegionOf(up, nil) {
+			if _, fromCheck := reach[f]; !fromCheck {
+				writers[f] = true
+			}
+		}
+	}
 	for _, f := range c.P.SrcFuncs() {
 		name := fw.FuncName(f)
-		if name == "(*gmsl.allowerContext).update" || name == "gmsl.newAllowerContext" {
+		if name == "(*gmsl.allowerContext).update" || name == "gmsl.newAllowerContext" || writers[f] {
 			continue
 		}
 		for _, w := range fw.WritesIn(f) {
@@ -147,23 +156,32 @@ func checkUpdate(c *fw.Ctx, up *ssa.Function) {
 	rule := "4 update"
 	pairs := map[string]string{"create": "createEvent", "powerLevels": "powerLevelsEvent", "joinRule": "joinRuleEvent"}
 	stores := map[string][]*ssa.Store{}
-	for _, b := range up.Blocks {
-		for _, ins := range b.Instrs {
-			if st, ok := ins.(*ssa.Store); ok {
-				if fa, ok := st.Addr.(*ssa.FieldAddr); ok {
-					if s := derefStructOf(fa.X.Type()); s != nil {
-						stores[s.Field(fa.Field).Name()] = append(stores[s.Field(fa.Field).Name()], st)
+	region := fw.RegionOf(up, nil)
+	for _, rf := range region {
+		for _, b := range rf.Blocks {
+			for _, ins := range b.Instrs {
+				if st, ok := ins.(*ssa.Store); ok {
+					if fa, ok := st.Addr.(*ssa.FieldAddr); ok {
+						if s := derefStructOf(fa.X.Type()); s != nil {
+							stores[s.Field(fa.Field).Name()] = append(stores[s.Field(fa.Field).Name()], st)
+						}
 					}
 				}
 			}
 		}
 	}
 	for content, ev := range pairs {
-		ok := len(stores[content]) >= 1
+		if len(stores[content]) == 0 {
+			c.Undecided(rule, "cached "+content+" is refreshed together with "+ev, "no store of the cached "+content+" found in update() or its helpers")
+			continue
+		}
+		ok := true
 		for _, st := range stores[content] {
+			// the event pointer is stored in the same function, and no return separates the two
+			// (both happen or neither does)
 			same := false
 			for _, se := range stores[ev] {
-				if se.Block() == st.Block() {
+				if se.Parent() == st.Parent() && (se.Block() == st.Block() || se.Block().Dominates(st.Block()) || st.Block().Dominates(se.Block())) {
 					same = true
 				}
 			}
@@ -175,15 +193,17 @@ func checkUpdate(c *fw.Ctx, up *ssa.Function) {
 	}
 	// refresh condition mentions event identity
 	n := 0
-	for _, iff := range fw.Ifs(up) {
-		s := fw.Sig(iff.Cond)
-		for _, ev := range pairs {
-			if strings.Contains(s, "*recv."+ev+" != ") || strings.Contains(s, "*recv."+ev+" == nil") {
-				n++
+	for _, rf := range region {
+		for _, iff := range fw.Ifs(rf) {
+			s := fw.Sig(iff.Cond)
+			for _, ev := range pairs {
+				if strings.Contains(s, "."+ev+" != ") || strings.Contains(s, "."+ev+" == ") || strings.Contains(s, " == *recv."+ev) || strings.Contains(s, " != *recv."+ev) {
+					n++
+				}
 			}
 		}
 	}
-	c.Check(n >= 3, rule, "each refresh is keyed on the event's identity", c.P.Pos(up.Pos()), "", fmt.Sprintf("only %d identity tests found", n))
+	c.Expect(n >= 3, rule, "each refresh is keyed on the event's identity", c.P.Pos(up.Pos()), "", fmt.Sprintf("only %d identity tests recognised", n))
 }
 
 // checkNeeded: effect table of accumulateStateNeeded vs the rules' table.
